@@ -156,6 +156,8 @@ var CommandFeatures = []Feature{
 		alt("multiline", `{command: "line1\nline2\n"}`, `{command: "line1\nline2\n"}`),
 		alt("commands-empty", `{commands: []}`, `{command: ""}`).opt("command"),
 		alt("commands-one", `{commands: [only]}`, `{command: only}`),
+		// list entries that themselves end in a newline: joined with one more newline between them, nothing trimmed
+		{Name: "commands-trailing-newlines", In: Map("commands", Seq(Str("a\n"), Str("b"), Str("c\n\n"), Str("d\n"))), Out: Map("command", Str("a\n\nb\nc\n\n\nd\n"))},
 		{Name: "both", In: Y(`{command: x, commands: [y, z]}`), Out: Map("command", OneOf(Str("y\nz"), Str("x\ny\nz"), Str("y\nz\nx")))},
 	}},
 	{"cmd.key", []Alt{
@@ -335,6 +337,8 @@ var PipelineFeatures = []Feature{
 		emptyOK("empty", `{env: {}}`, "env"),
 		alt("scalars", `{env: {N: 1, T: true, F: 1.5, A: "x y"}}`, `{env: {N: "1", T: "true", F: "1.5", A: "x y"}}`),
 		alt("three", `{env: {C: c, B: "$C", A: "${B}"}}`, `{env: {C: c, B: "$C", A: "${B}"}}`),
+		// names from the backend's own namespace, lower-case names, names that look like signed fields
+		alt("backend-names", `{env: {BUILDKITE_GIT_CLONE_FLAGS: "-v", buildkite_x: y, command: z, "env::Q": q}}`, `{env: {BUILDKITE_GIT_CLONE_FLAGS: "-v", buildkite_x: y, command: z, "env::Q": q}}`),
 	}},
 	{"doc.extra", []Alt{
 		alt("none", `{}`, `{}`),
